@@ -266,6 +266,62 @@ Proof.
     rewrite eq_sum_sin_sin by (try assumption; lia). rewrite Nat.eqb_sym. reflexivity.
 Qed.
 
+Lemma cc_D_0 N : cc_D N 0 = INR N.
+Proof. reflexivity. Qed.
+Lemma cc_D_2N N c : c = (2 * N)%nat -> cc_D N c = INR N.
+Proof. intros ->. unfold cc_D. rewrite Nat.eqb_refl, orb_true_r. reflexivity. Qed.
+Lemma cc_D_mid N c : (0 < c < 2 * N)%nat -> cc_D N c = 0.
+Proof.
+  intros H. unfold cc_D. destruct (Nat.eqb_spec c 0); [exfalso; lia|]. destruct (Nat.eqb_spec c (2 * N)); [exfalso; lia|]. reflexivity.
+Qed.
+
+Lemma cc_orth_val_le N a b : (1 <= N)%nat -> (1 <= a <= N)%nat -> (b <= a)%nat ->
+  cc_sum N (fun k => cos (INR a * eq_theta N k) * cos (INR b * eq_theta N k))
+  = if (a =? b)%nat then (if (a =? N)%nat then INR N else INR N / 2) else 0.
+Proof.
+  intros HN Ha H. rewrite cc_orth_le by lia.
+  destruct (Nat.eqb_spec a b) as [<-|Hne].
+  - rewrite Nat.sub_diag, cc_D_0.
+    destruct (Nat.eqb_spec a N) as [->|HaN].
+    + rewrite cc_D_2N by lia. lra.
+    + rewrite cc_D_mid by lia. lra.
+  - rewrite !cc_D_mid by lia. lra.
+Qed.
+
+Lemma cc_orth_val N a b : (1 <= N)%nat -> (1 <= a <= N)%nat -> (b <= N)%nat ->
+  cc_sum N (fun k => cos (INR a * eq_theta N k) * cos (INR b * eq_theta N k))
+  = if (a =? b)%nat then (if (a =? N)%nat then INR N else INR N / 2) else 0.
+Proof.
+  intros HN Ha Hb. destruct (Nat.le_ge_cases b a) as [H|H].
+  - apply cc_orth_val_le; assumption.
+  - rewrite (cc_sum_ext N _ (fun k => cos (INR b * eq_theta N k) * cos (INR a * eq_theta N k))) by (intros; ring).
+    destruct (Nat.eq_dec b 0) as [->|Hb0].
+    + assert (a = 0)%nat by lia. exfalso; lia.
+    + rewrite cc_orth_val_le by lia. rewrite (Nat.eqb_sym b a).
+      destruct (Nat.eqb_spec a b) as [->|]; reflexivity.
+Qed.
+
+(* open (Fejer-2) nodes theta_i = (i+1) PI/(n+1), i = 0..n-1 *)
+Lemma f2_theta_eq n i : f2_theta n i = eq_theta (S n) (S i).
+Proof. unfold f2_theta, eq_theta. rewrite !S_INR. reflexivity. Qed.
+
+(* sine orthogonality at the open nodes k PI/(n+1), k = 1..n *)
+Lemma f2_sin_orth n a b : (1 <= b)%nat -> (a + b < 2 * (n + 1))%nat ->
+  rsum n (fun i => sin (INR a * f2_theta n i) * sin (INR b * f2_theta n i)) = if (a =? b)%nat then INR (S n) / 2 else 0.
+Proof.
+  intros Hb Hab.
+  set (G := fun k => sin (INR a * eq_theta (S n) k) * sin (INR b * eq_theta (S n) k)).
+  rewrite (rsum_ext n _ (fun i => G (S i))) by (intros; unfold G; rewrite f2_theta_eq; reflexivity).
+  replace (rsum n (fun i => G (S i))) with (rsum (S n) G - G O) by (rewrite rsum_S_first; ring).
+  assert (Z : G O = 0).
+  { unfold G, eq_theta. simpl INR at 2 4. unfold Rdiv. rewrite !Rmult_0_r, !Rmult_0_l, !Rmult_0_r, sin_0. ring. }
+  rewrite Z, Rminus_0_r. unfold G.
+  destruct a as [|a].
+  - rewrite rsum_zero; [|intros; simpl INR; rewrite Rmult_0_l, sin_0; ring].
+    destruct (Nat.eqb_spec 0 b); [lia|reflexivity].
+  - apply eq_sum_sin_sin_sym; lia.
+Qed.
+
 (* ---------------------------------------------------------------- Chebyshev polynomials *)
 Lemma cheb_SS m x : cheb (S (S m)) x = 2 * x * cheb (S m) x - cheb m x.
 Proof. reflexivity. Qed.
@@ -282,3 +338,21 @@ Qed.
 
 Lemma cheb_cos m t : cheb m (cos t) = cos (INR m * t).
 Proof. apply cheb_cos_pair. Qed.
+
+(* ---------------------------------------------------------------- 2. discrete orthogonality *)
+Lemma cheb_discrete_orth_thm :
+  (forall n c, (1 <= n)%nat -> (0 < c < 2 * n)%nat -> rsum n (fun k => cos (INR c * f1_theta n k)) = 0) /\
+  (forall n a b, (1 <= n)%nat -> (a + b < 2 * n)%nat ->
+     rsum n (fun k => cos (INR a * f1_theta n k) * cos (INR b * f1_theta n k))
+     = if (a =? b)%nat then (if (a =? 0)%nat then INR n else INR n / 2) else 0) /\
+  (forall N c, (1 <= N)%nat -> (0 < c < 2 * N)%nat ->
+     rsum (S N) (fun k => halve_ends (S N) (fun _ => 1) k * cos (INR c * (PI * INR k / INR N))) = 0) /\
+  (forall N a b, (1 <= N)%nat -> (1 <= a <= N)%nat -> (b <= N)%nat ->
+     rsum (S N) (fun k => halve_ends (S N) (fun _ => 1) k * (cos (INR a * (PI * INR k / INR N)) * cos (INR b * (PI * INR k / INR N))))
+     = if (a =? b)%nat then (if (a =? N)%nat then INR N else INR N / 2) else 0) /\
+  (forall n a b, (1 <= b)%nat -> (a + b < 2 * (n + 1))%nat ->
+     rsum n (fun i => sin (INR a * f2_theta n i) * sin (INR b * f2_theta n i)) = if (a =? b)%nat then INR (S n) / 2 else 0).
+Proof.
+  split; [exact f1_sum_cos|]. split; [exact f1_orth|]. split; [exact cc_sum_cos|]. split; [exact cc_orth_val|exact f2_sin_orth].
+Qed.
+
